@@ -4,6 +4,7 @@ import (
 	"fmt"
 	"hash/fnv"
 	"strings"
+	"sync/atomic"
 
 	"github.com/syndtr/goleveldb/leveldb"
 	"verifharness/lib/vlib"
@@ -69,34 +70,35 @@ func (r *Runner) kOnEdit(e leveldb.VerifEdit) {
 	if !r.CollectK {
 		return
 	}
-	if e.HasMinSeq && !e.Trivial && len(e.Deleted) > 0 && r.nKCompact < r.KCap {
-		var ins, outs []string
+	pre := r.prevVersion
+	r.prevVersion = e.Version
+	isMove := len(e.Deleted) == 1 && len(e.Added) == 1 && e.Deleted[0].Num == e.Added[0].Num
+	if e.HasMinSeq && !isMove && len(e.Deleted) > 0 && r.nKCompact < r.KCap && pre != nil {
+		var dels, outs []string
 		total := 0
 		ok := true
+		inPre := map[int64]bool{}
+		for _, t := range pre {
+			inPre[t.Num] = true
+			total += len(r.TableEntries[t.Num])
+		}
 		for _, d := range e.Deleted {
-			es, have := r.TableEntries[d.Num]
-			if !have {
+			if !inPre[d.Num] {
 				ok = false
-				break
 			}
-			total += len(es)
-			ins = append(ins, coqTable(d.Num, es))
+			dels = append(dels, fmt.Sprintf("%d", d.Num))
 		}
 		for _, a := range e.Added {
 			outs = append(outs, coqTable(a.Num, r.TableEntries[a.Num]))
 		}
-		deeper, ok2 := r.coqLevels(e.Version, e.SourceLevel+2)
-		if ok && ok2 && total <= 400 {
-			r.KCases = append(r.KCases, fmt.Sprintf("KCompact %d %d %s [%s] [%s]", r.Prog.Cfg.CmpID, e.MinSeq, deeper,
-				strings.Join(ins, "; "), strings.Join(outs, "; ")))
+		prelv, ok2 := r.coqLevels(pre, 0)
+		if ok && ok2 && total <= 350 {
+			r.KCases = append(r.KCases, fmt.Sprintf("KCompact %d %d %s %d [%s] [%s]", r.Prog.Cfg.CmpID, e.MinSeq, prelv, e.SourceLevel,
+				strings.Join(dels, "; "), strings.Join(outs, "; ")))
 			r.nKCompact++
 			r.Stats["k_compact_cases"]++
-			if total > 0 {
-				// non-trivial for C03: an input entry invisible to the live DB but needed by a snapshot is
-				// detected by the model; here we only count compactions that ran under live snapshots
-				if e.MinSeq < r.lastSeqSeen {
-					r.Stats["compactions_under_snapshot"]++
-				}
+			if atomic.LoadInt32(&r.liveSnaps) > 0 {
+				r.Stats["k_compact_cases_under_snapshot"]++
 			}
 		}
 	}
